@@ -284,8 +284,23 @@ pub fn gen_opt(rng: &mut Rng) -> Rec {
 
 /// A pool of names sharing suffixes; `distinct_suffix_target` > 32 forces dictionary wrap-around
 /// in the library's compressor.
-fn name_pool(rng: &mut Rng, shape: Shape) -> Vec<Name> {
+fn name_pool(rng: &mut Rng, shape: Shape) -> (Vec<Name>, bool) {
     let mut pool = Vec::new();
+    if (shape == Shape::Many || shape == Shape::ManySuffixes) && rng.chance(1, 4) {
+        // chain mode: each name is one label in front of the previous one, so that a dense
+        // layout builds pointer chains up to (and, for later names, stopped at) 16 hops
+        let mut cur = Name(vec![rng.pick(LABELS).to_vec()]);
+        let n = rng.range(14, 22);
+        for i in 0..n {
+            pool.push(cur.clone());
+            let l = format!("h{}", i).into_bytes();
+            if cur.wire_len() + l.len() + 1 > 255 {
+                break;
+            }
+            cur.0.insert(0, l);
+        }
+        return (pool, true);
+    }
     let bases = rng.range(1, 3);
     let mut base_names = Vec::new();
     for _ in 0..bases {
@@ -293,7 +308,8 @@ fn name_pool(rng: &mut Rng, shape: Shape) -> Vec<Name> {
     }
     let n = match shape {
         Shape::Tiny => 2,
-        Shape::ManySuffixes => 48,
+        // around the compressor's 32-entry suffix table as well as well beyond it
+        Shape::ManySuffixes => *rng.pick(&[48usize, 48, 40, 36, 34, 33, 32, 31, 30, 28]),
         _ => 8,
     };
     for i in 0..n {
@@ -316,12 +332,19 @@ fn name_pool(rng: &mut Rng, shape: Shape) -> Vec<Name> {
         }
         pool.push(nm);
     }
-    pool
+    (pool, false)
 }
 
 pub fn gen_msg(rng: &mut Rng, cfg: &PacketCfg) -> Msg {
-    let pool = name_pool(rng, cfg.shape);
+    let (pool, chain) = name_pool(rng, cfg.shape);
+    let mut next_in_chain = 0usize;
     let mut name_gen = |r: &mut Rng| -> Name {
+        if chain {
+            // hand the nested names out in order, so that each points at its predecessor
+            let n = pool[next_in_chain % pool.len()].clone();
+            next_in_chain += 1;
+            return n;
+        }
         if r.chance(4, 5) {
             r.pick(&pool).clone()
         } else {
